@@ -10,6 +10,7 @@ static void sb_add(sb_t* b, const char* fmt, ...) { char tmp[12000]; va_list ap;
     if (b->n + (size_t)L + 2 > b->cap) { b->cap = b->cap ? b->cap * 2 + (size_t)L : 8192; b->p = realloc(b->p, b->cap); } memcpy(b->p + b->n, tmp, (size_t)L); b->n += (size_t)L; b->p[b->n++] = '\n'; b->p[b->n] = 0; }
 static void hexname(char* out, size_t cap, const char* s) { size_t n = strlen(s); if (n * 2 + 1 > cap) n = (cap - 1) / 2; static const char* hx = "0123456789abcdef"; for (size_t i = 0; i < n; i++) { out[2 * i] = hx[(uint8_t)s[i] >> 4]; out[2 * i + 1] = hx[(uint8_t)s[i] & 15]; } out[2 * n] = 0; }
 
+static void path_probes(sb_t* b, const carquet_schema_t* s);
 static void describe(sb_t* b, const carquet_schema_t* s) { char hn[11000];
     int ne = carquet_schema_num_elements(s), nl = carquet_schema_num_columns(s); sb_add(b, "N %d %d", ne, nl);
     for (int e = 0; e < ne; e++) { const carquet_schema_node_t* n = carquet_schema_get_element(s, e); if (!n) { sb_add(b, "E %d NULL", e); continue; } const carquet_logical_type_t* lt = carquet_schema_node_logical_type(n); hexname(hn, sizeof hn, carquet_schema_node_name(n));
@@ -26,10 +27,26 @@ static void describe(sb_t* b, const carquet_schema_t* s) { char hn[11000];
      * reference), usually -1: catches prefix, suffix-tolerant and case-insensitive matching. */
     for (int l = 0; l < nl && l < 400; l++) { const carquet_schema_node_t* n = carquet_schema_get_element(s, s->leaf_indices[l]); if (!n) continue; const char* nm = carquet_schema_node_name(n); size_t L = strlen(nm); if (L > 10000) continue; char* pr = malloc(L + 3);
         for (int k = 0; k < 3; k++) { if (k == 0) { if (!L) continue; memcpy(pr, nm, L - 1); pr[L - 1] = 0; } else if (k == 1) { memcpy(pr, nm, L); pr[L] = 'x'; pr[L + 1] = 0; } else { if (!L || !((nm[0] | 32) >= 'a' && (nm[0] | 32) <= 'z')) continue; memcpy(pr, nm, L + 1); pr[0] ^= 32; }
+            if (strchr(pr, '.')) { v_count("find_column_derived_probes_skipped_dotted"); continue; }   /* could be some leaf's path: the path probes below cover dotted names */
             int exp = -1; for (int q = 0; q < nl; q++) { const carquet_schema_node_t* m = carquet_schema_get_element(s, s->leaf_indices[q]); if (m && !strcmp(carquet_schema_node_name(m), pr)) { exp = q; break; } }
             int got = carquet_schema_find_column(s, pr); v_count("find_column_derived_probes"); if (got != exp) { sb_add(b, "X find_column(%s of leaf %d's name) = %d, first leaf with exactly that name is %d", k == 0 ? "proper prefix" : k == 1 ? "extension" : "case variant", l, got, exp); break; } }
         free(pr); }
+    path_probes(b, s);
 }
+/* lookup by dot-separated path (carquet.h: 'For nested schemas, use dot-separated paths (e.g., "address.street")'): the path of a leaf is the
+ * names of its ancestors below the root and its own name joined by '.'. Expected answer = the first leaf whose own name is the probe
+ * (a flat column may be called "a.b"), otherwise the first leaf whose path is the probe. Paths are computed here from the element list
+ * (names and child counts, pinned to the reference by the E lines) with an explicit stack. */
+static void path_probes(sb_t* b, const carquet_schema_t* s) { int ne = carquet_schema_num_elements(s), nl = carquet_schema_num_columns(s); if (ne < 2 || nl < 1 || nl > 400) return;
+    char** path = calloc((size_t)nl, sizeof(char*)); int* rem = calloc((size_t)ne + 1, sizeof(int)); char** pre = calloc((size_t)ne + 1, sizeof(char*)); int depth = 0, leaf = 0; rem[0] = s->elements[0].num_children; pre[0] = strdup("");
+    for (int e = 1; e < ne; e++) { while (depth > 0 && rem[depth] <= 0) { free(pre[depth]); depth--; } rem[depth]--; const char* nm = s->elements[e].name ? s->elements[e].name : ""; size_t L = strlen(pre[depth]) + strlen(nm) + 2; char* full = malloc(L); snprintf(full, L, "%s%s%s", pre[depth], depth > 0 ? "." : "", nm);
+        if (leaf < nl && s->leaf_indices[leaf] == e) { path[leaf++] = full; } else { depth++; rem[depth] = s->elements[e].num_children; pre[depth] = full; } }
+    while (depth >= 0) { free(pre[depth]); depth--; }
+    int nested = 0; for (int l = 0; l < leaf; l++) { const char* own = s->elements[s->leaf_indices[l]].name ? s->elements[s->leaf_indices[l]].name : ""; if (strcmp(own, path[l])) nested++; }
+    for (int l = 0; l < leaf; l++) { int exp = -1; for (int q = 0; q < nl && exp < 0; q++) { const char* own = s->elements[s->leaf_indices[q]].name; if (own && !strcmp(own, path[l])) exp = q; } for (int q = 0; q < leaf && exp < 0; q++) if (!strcmp(path[q], path[l])) exp = q;
+        int got = carquet_schema_find_column(s, path[l]); v_count("find_column_path_probes"); if (got != exp) { sb_add(b, "X find_column(path of leaf %d, %zu bytes) = %d, expected %d", l, strlen(path[l]), got, exp); break; } }
+    if (nested) v_count("schemas_with_nested_leaves_probed_by_path");
+    for (int l = 0; l < leaf; l++) free(path[l]); free(path); free(rem); free(pre); }
 static void first_diff(const char* a, const char* b, char* la, char* lb, size_t cap) { la[0] = lb[0] = 0; while (*a || *b) { const char* ea = strchr(a, '\n'); const char* eb = strchr(b, '\n'); size_t na = ea ? (size_t)(ea - a) : strlen(a), nb = eb ? (size_t)(eb - b) : strlen(b);
         if (na != nb || memcmp(a, b, na)) { snprintf(la, cap, "%.*s", (int)(na < cap - 1 ? na : cap - 1), a); snprintf(lb, cap, "%.*s", (int)(nb < cap - 1 ? nb : cap - 1), b); return; } a = ea ? ea + 1 : a + na; b = eb ? eb + 1 : b + nb; } }
 
@@ -40,7 +57,7 @@ int main(int argc, char** argv) {
             carquet_error_t err = CARQUET_ERROR_INIT; carquet_reader_options_t ro; carquet_reader_options_init(&ro); carquet_reader_t* rd = carquet_reader_open_buffer(pq, len, &ro, &err); v_case(v_hash(exp, el, 3)); n++;
             if (!rd) { v_viol("schema:valid-footer-rejected", "case %lld code=%d %s exp=%.80s", (long long)n, err.code, err.message, exp); }
             else { sb_t d = {0}; describe(&d, carquet_reader_schema(rd)); if (carquet_reader_num_columns(rd) != carquet_schema_num_columns(carquet_reader_schema(rd))) sb_add(&d, "X reader_num_columns != schema_num_columns");
-                if (strcmp(d.p, exp)) { char la[300], lb[300], key[96]; first_diff(exp, d.p, la, lb, sizeof la); char kind = la[0] ? la[0] : lb[0]; snprintf(key, sizeof key, "schema:%s", kind == 'N' ? "leaf-or-element-count" : kind == 'E' ? "element-accessor" : kind == 'L' ? "leaf-order-or-levels" : kind == 'A' ? "node-level-accessor" : kind == 'F' ? "find-column" : "other"); v_viol(key, "case %lld expected[%s] carquet[%s]", (long long)n, la, lb); }
+                if (strcmp(d.p, exp)) { char la[300], lb[300], key[96]; first_diff(exp, d.p, la, lb, sizeof la); char kind = la[0] ? la[0] : lb[0]; snprintf(key, sizeof key, "schema:%s", kind == 'N' ? "leaf-or-element-count" : kind == 'E' ? "element-accessor" : kind == 'L' ? "leaf-order-or-levels" : kind == 'A' ? "node-level-accessor" : kind == 'F' ? "find-column" : strstr(lb, "find_column(path") ? "find-column-by-path" : strstr(lb, "find_column(") ? "find-column-derived-probe" : "other"); v_viol(key, "case %lld expected[%s] carquet[%s]", (long long)n, la, lb); }
                 if (d.p && strstr(d.p, "\nL ")) v_count("schemas_with_leaves"); free(d.p); carquet_reader_close(rd); }
             free(pq); free(exp); }
         fclose(f); v_count_n("footers_checked", (uint64_t)n);
